@@ -36,6 +36,10 @@ HasIndexing(P) ==
      \/ \E x \in 1..Len(P.ret.refs) : Len(P.ret.refs[x].path) > 0
      \/ \E q \in 1..Len(P.subs) : HasIndexing(P.subs[q])
 
+RECURSIVE HasDebug(_)
+HasDebug(P) == \/ \E j \in 1..Len(P.sites) : P.sites[j].debug
+               \/ \E q \in 1..Len(P.subs) : HasDebug(P.subs[q])
+
 Clauses(S) == {p[2] : p \in {q \in S : q[1]}}
 Count(reg, cond) == IF cond THEN TLCSet(reg, TLCGet(reg) + 1) ELSE TRUE
 
@@ -83,7 +87,12 @@ Bad(W) ==
        <<W.built /\ inEq /\ wrongExec /\ ~HasFlag(P), "C03.exec">>,
        <<W.built /\ inEq /\ wrongExec /\ HasSub(P), "C20.exec">>,
        <<W.built /\ inEq /\ wrongExec /\ W.async, "C17.exec">>,
+       \* C13, plain calls: with RUN_DEBUG_NODES off no debug call site is entered (the program handed over then has them
+       \* switched off), with it on every debug call site of an active DAG is entered once
+       <<W.built /\ inEq /\ wrongExec /\ HasDebug(P), "C13.call-exec">>,
        <<W.built /\ W.dup, "C03.twice">>,
+       \* C15: the last of several calls on one DAG object returns what a DAG built afresh returns for the same arguments
+       <<W.built /\ ~W.fresh_same, "C15.not-fresh">>,
        \* conc = 1: one of several simultaneous calls of one DAG from different threads (C16)
        \* conc = 2: one of several awaits of one AsyncDAG gathered in one event loop (C17)
        <<W.built /\ inEq /\ (wrongVal \/ wrongExec) /\ W.conc = 1, "C16.concurrent-calls">>,
@@ -111,15 +120,16 @@ Check ==
      /\ Count(9, W.loop = 1)
      /\ Count(10, ~exp.err /\ W.conc = 3)
      /\ Count(12, ~exp.err /\ HasIndexing(P))
+     /\ Count(13, ~exp.err /\ HasDebug(P))
      /\ Count(11, ~exp.err /\ \E q \in exp.exec : Len(q) > 1 /\ LET RECURSIVE IsSetupPath(_, _)
                                                                     IsSetupPath(Q, pth) == IF Len(pth) = 1 THEN Q.sites[pth[1]].setup
                                                                                            ELSE IsSetupPath(Q.subs[Q.sites[pth[1]].sub], Tail(pth))
                                                                 IN IsSetupPath(P, q))
      /\ (b = {} \/ PrintT("MISMATCH " \o ToJson([o |-> o, c |-> b, expval |-> exp.val, expexec |-> exp.exec])))
 
-ASSUME \A reg \in 1..12 : TLCSet(reg, 0)
+ASSUME \A reg \in 1..13 : TLCSet(reg, 0)
 Counts == PrintT("COUNTS " \o ToJson([rows |-> TLCGet(1), ineq |-> TLCGet(2), nested |-> TLCGet(3),
                                        flagged |-> TLCGet(4), async |-> TLCGet(5), argerr |-> TLCGet(6),
                                        threads |-> TLCGet(7), gathered |-> TLCGet(8), loopserved |-> TLCGet(9),
-                                       inturn |-> TLCGet(10), nestedsetup |-> TLCGet(11), indexed |-> TLCGet(12)]))
+                                       inturn |-> TLCGet(10), nestedsetup |-> TLCGet(11), indexed |-> TLCGet(12), withdebug |-> TLCGet(13)]))
 =============================================================================
